@@ -180,6 +180,11 @@ theorem cij_setter_symm (v : M6 K) (h : Symm6 v) :
     (0 < max6 v → setCij v = .ok (zeroSmall (max6 v) v)) ∧ (∀ z, setCij v = .ok z → Symm6 z) :=
   ⟨setCij_of_symm v h, fun z hz => setCij_symm v z h hz⟩
 
+/-- `ElasticConstants(Sijkl=ec.Sijkl)` = `ElasticConstants(Sij=ec.Sij)` through the full `Sijkl` setter (all of its
+    symmetry assertions, with their magnitude-scaled tolerance, pass for a symmetric compliance of any size). -/
+theorem sijkl_setter_roundtrip (inv : M6 K → Option (M6 K)) (s : M6 K) (h : Symm6 s) :
+    setSijkl inv (sijklGet s) = setSij inv s := setSijkl_sijklGet inv s h
+
 /-- `ElasticConstants(Cijkl=ec.Cijkl)` and `ElasticConstants(Cij9=ec.Cij9)` pass all assertions and store what
     `ElasticConstants(Cij=ec.Cij)` stores. -/
 theorem setter_roundtrips (c : M6 K) (h : Symm6 c) (hpos : 0 < max6 c) :
@@ -496,6 +501,10 @@ theorem normalized_idem_orthorhombic (c : M6 K) :
     normalized_orthorhombic (m6 (normalized_orthorhombic c)) = normalized_orthorhombic c :=
   norm_fix_orthorhombic _ _ _ _ _ _ _ _ _
 
+theorem normalized_idem_monoclinic (c : M6 K) :
+    normalized_monoclinic (m6 (normalized_monoclinic c)) = normalized_monoclinic c :=
+  norm_fix_monoclinic _ _ _ _ _ _ _ _ _ _ _ _ _
+
 /-- isotropic: `s` is whatever inverse was used the first time, `s'` a (left) inverse of the normalised 6x6;
     the Hill averages of the first pass must be non-zero (otherwise the normalised matrix has no inverse). -/
 theorem normalized_idem_isotropic (c s s' : M6 K) (hmu : shearHill c s ≠ 0) (hK : bulkHill c s ≠ 0)
@@ -520,10 +529,55 @@ theorem is_normal_of_normalized (rt at' : K) (h1 : 0 ≤ rt) (h2 : 0 ≤ at') (c
     isclose rt at' (m6 (normalized_orthorhombic c) a b)
       (m6 (normalized_orthorhombic (m6 (normalized_orthorhombic c))) a b) = true ∧
     isclose rt at' (m6 (normalized_triclinic c) a b)
-      (m6 (normalized_triclinic (m6 (normalized_triclinic c))) a b) = true := by
+      (m6 (normalized_triclinic (m6 (normalized_triclinic c))) a b) = true ∧
+    isclose rt at' (m6 (normalized_monoclinic c) a b)
+      (m6 (normalized_monoclinic (m6 (normalized_monoclinic c))) a b) = true := by
   rw [normalized_idem_cubic, normalized_idem_hexagonal, normalized_idem_tetragonal, normalized_idem_rhombohedral,
-    normalized_idem_orthorhombic, normalized_idem_triclinic]
+    normalized_idem_orthorhombic, normalized_idem_triclinic, normalized_idem_monoclinic]
   exact ⟨isclose_self _ _ _ h1 h2, isclose_self _ _ _ h1 h2, isclose_self _ _ _ h1 h2, isclose_self _ _ _ h1 h2,
-    isclose_self _ _ _ h1 h2, isclose_self _ _ _ h1 h2⟩
+    isclose_self _ _ _ h1 h2, isclose_self _ _ _ h1 h2, isclose_self _ _ _ h1 h2⟩
+
+/-! ## the object: reads are pure and order-independent, setters overwrite -/
+
+/-- a read leaves the stored matrix alone; a setter's effect does not depend on what was stored before. -/
+theorem object_step (inv : M6 K → Option (M6 K)) (st st' : M6 K) (op : Op K) :
+    (op.store? inv = none → (step inv st op).1 = st ∧ (step inv st op).2 = op.read inv st) ∧
+    (∀ z, op.store? inv = some (.ok z) → (step inv st op).1 = z ∧ (step inv st' op).1 = z) ∧
+    (∀ e, op.store? inv = some (.error e) → (step inv st op).1 = st ∧ (step inv st op).2 = .error e) := by
+  refine ⟨fun h => ?_, fun z h => ?_, fun e h => ?_⟩ <;> simp [step, h]
+
+/-- reads are pure: a sequence of reads leaves the stored matrix unchanged … -/
+theorem object_reads_pure (inv : M6 K → Option (M6 K)) (st : M6 K) (ops : List (Op K))
+    (h : ∀ o ∈ ops, o.store? inv = none) : finalState inv st ops = st := by
+  induction ops generalizing st with
+  | nil => rfl
+  | cons o os ih =>
+    have ho := h o (List.mem_cons_self ..)
+    simp only [finalState, step, ho]
+    exact ih st (fun o' ho' => h o' (List.mem_cons_of_mem _ ho'))
+
+/-- … and each of them returns what it returns on a fresh object holding the same matrix, whatever was read
+    before it and in whatever order: the observations are the pointwise reads of `st`. -/
+theorem object_read_order (inv : M6 K → Option (M6 K)) (st : M6 K) (ops : List (Op K))
+    (h : ∀ o ∈ ops, o.store? inv = none) : run inv st ops = ops.map (fun o => o.read inv st) := by
+  induction ops generalizing st with
+  | nil => rfl
+  | cons o os ih =>
+    have ho := h o (List.mem_cons_self ..)
+    simp only [run, step, ho, List.map_cons]
+    rw [ih st (fun o' ho' => h o' (List.mem_cons_of_mem _ ho'))]
+
+/-- after a successful set, everything observed later is what a fresh object given the same value shows: the
+    history before the set is forgotten. -/
+theorem object_set_overwrites (inv : M6 K → Option (M6 K)) (st st' : M6 K) (op : Op K) (z : M6 K)
+    (hz : op.store? inv = some (.ok z)) (ops : List (Op K)) :
+    run inv st (op :: ops) = run inv st' (op :: ops) ∧ finalState inv st (op :: ops) = finalState inv st' (op :: ops) := by
+  simp only [run, finalState, step, hz, and_self]
+
+/-- a refused set changes nothing. -/
+theorem object_refused_set (inv : M6 K → Option (M6 K)) (st : M6 K) (op : Op K) (e : String)
+    (he : op.store? inv = some (.error e)) (ops : List (Op K)) :
+    run inv st (op :: ops) = .error e :: run inv st ops ∧ finalState inv st (op :: ops) = finalState inv st ops := by
+  simp only [run, finalState, step, he, and_self]
 
 end Atomman.C11
